@@ -1072,11 +1072,12 @@ KERNEL_TOLERANCE_TABLE = {
 }
 
 
-def kernel_tolerances(chk, prog, funcs_by_unit):
+def kernel_tolerances(chk, prog, funcs_by_unit, table=None, what='dense kernels', rule='K.tolerance'):
     """dense kernels return their textbook value for data of any scale (1e-6..1e6): apart from the MISSING sentinel test, a kernel may not
     compare a data-scaled quantity with an absolute tolerance, except at the sites confirmed in KERNEL_TOLERANCE_TABLE"""
-    R = chk.rule('K.tolerance', 'inside the dense kernels the only approximate-equality tests are the MISSING sentinel test and the confirmed '
-                 'sites of KERNEL_TOLERANCE_TABLE: no absolute tolerance (> 1e-12) is applied to a quantity that scales with the data')
+    table = KERNEL_TOLERANCE_TABLE if table is None else table
+    R = chk.rule(rule, 'inside the %s the only approximate-equality tests are the MISSING sentinel test and the confirmed '
+                 'sites of the tolerance table: no absolute tolerance (> 1e-12) is applied to a quantity that scales with the data' % what)
     miss = float(missing_value())
     seen = set()
     for unit, names in funcs_by_unit.items():
@@ -1093,19 +1094,48 @@ def kernel_tolerances(chk, prog, funcs_by_unit):
                 v, t = literal_value(m[1]), literal_value(m[2])
                 if v == miss:
                     continue
+                if is_scaling_cell(prog, f, m[0], stored_only=True):
+                    continue        # zero-spread tests on stored scalings are governed by G.zero-divisor / FA.*
                 key = (nm, v, t)
                 desc = '%s %s: ApproxEq(%s, %s, %s)' % (f.unit.where(n), nm, f.unit.text(m[0])[:40], f.unit.text(m[1])[:20] if v is None else '%g' % v, t)
-                if key in KERNEL_TOLERANCE_TABLE:
+                if key in table:
                     seen.add(key)
-                    chk.instance(R, desc + ': confirmed site (%s)' % KERNEL_TOLERANCE_TABLE[key])
+                    chk.instance(R, desc + ': confirmed site (%s)' % table[key])
                 elif t is not None and t <= 1e-12:
                     chk.instance(R, desc + ': tolerance below the square of the smallest magnitude in range')
                 else:
                     chk.instance(R, desc + ': not a confirmed site', 'refuted')
-                    chk.violation(Finding('K.tolerance', rel(f.file), nm, 'tol:%s:%s' % (cell_key(m[0]), t), f.unit.where(n),
+                    chk.violation(Finding(rule, rel(f.file), nm, 'tol:%s:%s' % (cell_key(m[0]), t), f.unit.where(n),
                                           '%s compares `%s` with %s using the absolute tolerance %s: for data of small scale (the property ranges over '
                                           '1e-6..1e6) the test fires on ordinary non-zero values and the kernel no longer returns its textbook value'
                                           % (nm, f.unit.text(m[0])[:60], f.unit.text(m[1])[:20], t)))
-    for key, why in KERNEL_TOLERANCE_TABLE.items():
+    for key, why in table.items():
         if key not in seen and prog.funcs.get(key[0]) is not None:
             chk.instance(R, 'confirmed site %s no longer present (table entry is stale, harmless)' % (key,), 'undecided')
+    # positive control: the recogniser must see the absolute-tolerance test of controls/tolerance.c on every run
+    from .report import VERIF
+    cpath = os.path.join(VERIF, 'controls', 'tolerance.c')
+    hit = False
+    try:
+        from .program import Program
+        cu = fe.load_units([], {'control_tolerance.c': cpath})
+        for f in Program(cu).all_funcs():
+            if True:
+                for n in walk(f.body or {}):
+                    if n.get('kind') == 'BinaryOperator' and n.get('opcode') == '&&':
+                        m = match_approx(n)
+                        if m and literal_value(m[1]) == 0.0 and (literal_value(m[2]) or 0) > 1e-12:
+                            hit = True
+    except Exception as e:      # noqa
+        hit = False
+        chk.extra['tolerance_control_error'] = repr(e)[:200]
+    if hit:
+        chk.instance(R, 'positive control controls/tolerance.c is recognised')
+    else:
+        chk.broke('rule %s did not recognise its positive control controls/tolerance.c' % rule)
+
+
+CURVE_TOLERANCE_TABLE = {
+    ('ROC', 1.0, 0.1): 'class test on the 0/1 truth label (column 0), not on a score',
+    ('PrecisionRecall', 1.0, 0.1): 'class test on the 0/1 truth label (column 0), not on a score',
+}
